@@ -31,9 +31,9 @@ for e in d:
         if subj and subj in by_subject:
             new = by_subject[subj]
             e["subject"] = subj
-            if e.get("commit") != new:
-                e["what"] = e["what"].replace(e["commit"], new)
-                e["commit"] = new
+            e["commit"] = new
+            if "desc" in e:
+                e["what"] = "fixed: property=%s %s %s" % (e["properties"][0], new, e["desc"])
         else:
             print("WARNING: no commit for", e["id"])
 json.dump(d, open("/verif/known_findings.json", "w"), indent=1)
